@@ -33,6 +33,7 @@ func checkC17(c *Ctx) {
 	// disposal reaches every target only while the target lists are not aliased / rewritten by anything but the refresh
 	// (shared with C09)
 	rRotationOnlyRefreshed(c, "R17.7 rotation-written-only-by-the-refresh")
+	rWhoMayStartProbes(c, "R17.8 who-may-start-probing")
 }
 
 // commandReach: functions a command handler runs synchronously: static calls, closure arguments,
@@ -400,4 +401,29 @@ func r173(c *Ctx) {
 	c.ob(rule, "RemoveService/disposes-the-removed-service", rs.Pos(), ok, true, "remove must stop the probes of the service it unbinds")
 	r021(c, "R02.1 deploy-step-order")
 	r061(c, "R17.3b failed-deploy-disposes-new-balancer")
+}
+
+// R17.8 who may start probing: "no further probes after remove / redeploy / failed deploy" holds because disposal stops
+// a target's probe loop (R17.2) AND nothing starts one again: probe loops are started for the targets of a balancer under
+// construction and nowhere else (a drain, a resume or a probe result that restarted probing would outlive the disposal
+// that ran in between).
+func rWhoMayStartProbes(c *Ctx, rule string) {
+	c.floor(rule, 3)
+	allow := map[string]map[string]string{
+		"(*server.HealthCheck).run":                {"server.NewHealthCheck": "the constructor starts the loop"},
+		"server.NewHealthCheck":                    {"(*server.Target).BeginHealthChecks": "the only maker of probe loops"},
+		"(*server.Target).BeginHealthChecks":       {"(*server.LoadBalancer).beginHealthChecks": "for every target of a new balancer", "server.NewLoadBalancer": "for every target of a new balancer"},
+		"(*server.LoadBalancer).beginHealthChecks": {"server.NewLoadBalancer": "balancer construction"},
+	}
+	for _, fn := range c.proxyFuncs() {
+		row, ok := allow[fname(fn)]
+		if !ok {
+			continue
+		}
+		for _, u := range c.usesOfFunc(fn) {
+			o := fname(outer(u.in))
+			reason, ok := row[o]
+			c.ob(rule, "call "+fn.Name()+" ("+fname(fn)+") <- "+o, u.instr.Pos(), ok, false, "who may start probing: "+reason)
+		}
+	}
 }
